@@ -657,3 +657,8 @@ func init() {
 		return &RValue{valid: true, t: types.NewPointer(rt.t), v: cell}
 	}
 }
+
+func init() {
+	// context.WithValue asks reflectlite whether the key is comparable
+	stubs["internal/reflectlite.TypeOf"] = stubReflectTypeOf
+}
